@@ -566,3 +566,8 @@ def golden(c, mo):
     if t[0] == 'pyfloat' and len(t[1]) <= 120 and mo not in ('ERR', 'nan'):
         return 'py_float %s = Some (hexf "%s")' % (_coq_str(unhs(t[1])), mo)
     return None
+
+
+EXTRACTION_TB = ('extraction: Coq extraction plugin with ExtrOcamlBasic + ExtrOcamlZBigInt + ExtrOCamlFloats + ExtrOCamlInt63 (bool, option, list, prod, '
+                 'unit, sumbool -> OCaml natives; positive/N/Z -> zarith; PrimFloat.float -> OCaml float, Uint63 -> coq-core kernel Uint63); no Extract '
+                 'Constant / Extract Inductive of our own; linked with -rectypes -thread -package zarith,coq-core.kernel; OCaml 4.13.1')
